@@ -77,7 +77,10 @@
 EXTENDS Naturals, FiniteSets, Sequences, SequencesExt, TLC
 
 CONSTANTS Node,          \* {1} | {1,2} | {1,2,3}; 1 is the bootstrapper
-          BaseName,      \* names usable for any entry and as index references
+          BaseName,      \* names usable for any entry and as index references. Names are opaque
+                         \* strings compared exactly (as validateChannelNames and the name index
+                         \* do); the generator's pools contain pairs differing only in letter
+                         \* case ("Na"/"na", "a"/"A"): two distinct valid names
           ExtraName,     \* further names for non-calculated entries (e.g. "a_time")
           Kinds,         \* subset of {"index","fixed","variable","virtual","free","calc","badtype"}
           Opts,          \* subset of {"plain","retrieve","overwrite"}
